@@ -26,10 +26,12 @@ from typing import Any
 VERIF = Path(__file__).resolve().parent.parent
 REPO = Path(os.environ.get("VERIF_REPO", "/repo"))
 SRC = REPO / "src" / "stabilize"
-COQ = VERIF / "coq"
-BUILD = VERIF / "build"
-EVIDENCE = VERIF / "evidence"
-REPLAYS = VERIF / "replays"
+# the three output locations can be redirected (used only to try a check against a scratch copy of the
+# repository without disturbing /verif's own build): VERIF_COQ, VERIF_BUILD, VERIF_OUT
+COQ = Path(os.environ.get("VERIF_COQ", str(VERIF / "coq")))
+BUILD = Path(os.environ.get("VERIF_BUILD", str(VERIF / "build")))
+EVIDENCE = Path(os.environ.get("VERIF_OUT", str(VERIF))) / "evidence"
+REPLAYS = Path(os.environ.get("VERIF_OUT", str(VERIF))) / "replays"
 PY = "/venv/bin/python"
 NPROC = int(os.environ.get("VERIF_NPROC", "16"))
 
